@@ -20,6 +20,10 @@
 #include <sstream>
 #include <stdexcept>
 
+#ifdef BLOCH_VERIF
+#include "bloch/runtime/verif_hooks.hpp"
+#endif
+
 namespace bloch::runtime {
 
     using support::BlochError;
@@ -207,6 +211,9 @@ namespace bloch::runtime {
                 p1 += std::norm(m_state[i]);
         std::uniform_real_distribution<double> dist(0.0, 1.0);
         double r = dist(rng);
+#ifdef BLOCH_VERIF
+        verif::overrideDraw(r);
+#endif
         int res = r < p1 ? 1 : 0;
         double norm = std::sqrt(res ? p1 : 1 - p1);
         for (size_t i = 0; i < m_state.size(); ++i) {
